@@ -67,6 +67,9 @@ class Cfg:
         self.terminating_with_funcs = False
         self.call_bias = 0  # extra percentage of statements that are calls
         self.tail_call_bias = 0  # percentage of functions that end in a statement call
+        self.nested_defs = True
+        self.d5_args = False  # pass bare names of writable globals as arguments (open finding F-D5 shape):
+        #                       only for oracles that do not compare with the source interpreter
         self.__dict__.update(kw)
 
 
@@ -196,8 +199,17 @@ class ProgGen:
     def arg(self, vars_, d=0):
         """call argument: never a bare mutable name (D5: an un-overwritten parameter of an inlined callee
         aliases the caller's register)"""
+        cands = [f for f in self.funcs if f["has_ret"]]
+        if cands and d < 2 and self.cfg.calls_in_expr and not self.in_pure and not self.no_calls and self.chance(15):
+            f = self.choice(cands)
+            self.features.add("call-as-argument")
+            f["calls"] += 1
+            return f"{f['name']}({', '.join(self.arg(vars_, d + 1) for _ in range(f['npar']))})"
         e = self.expr(vars_, d)
         if e in vars_ and e not in self.frozen:
+            if self.cfg.d5_args:
+                self.features.add("d5-arg-shape")
+                return e
             self.features.add("excl-D5-arg")
             return f"({e} + 0)"
         return e
@@ -427,10 +439,59 @@ class ProgGen:
             if g not in writable:
                 self.ro.add(g)
         vars_ = params + list(globs)
+        inner = None
+        if self.cfg.nested_defs and self.chance(10):
+            # a nested function definition, used by the rest of the outer body
+            self.features.add("nested-def")
+            inner = {"name": f"in{fi}", "npar": 1, "has_ret": True, "calls": 0}
+            L.append(f"    def in{fi}(q{fi}):")
+            L.append(f"        {self.write([f'q{fi}'])}")
+            L.append(f"        return {self.expr([f'q{fi}'])}")
+            self.funcs.append(inner)
         body = self.block(vars_, 1, 0, "ret" if has_ret else "noret", n=self.n(1, self.cfg.func_stmts))
+        if inner is not None:
+            body.append(f"    {self.choice(WRITES)} = in{fi}({self.arg(vars_)}) + 1")
+            self.funcs.remove(inner)
         # a `return` generated by block() at depth 0 cannot happen (depth>0 required), so add the tail
         L += body
-        if has_ret:
+        if self.chance(18):
+            # the function ends in a loop that is left by a `return` which is the last statement of
+            # the loop body (directly or at the end of a trailing if/else)
+            self.features.add("ends-in-loop-with-return")
+            c = self.fresh("c")
+            self.ro.add(c)
+            lim = self.choice(["1", "2", "3"])
+            ret = (lambda: f"return {self.expr(vars_ + [c])}") if has_ret else (lambda: "return")
+            L.append(f"    {c} = 0")
+            if self.chance(50):
+                L.append("    while True:")
+                L.append(f"        {c} += 1")
+                L += self.block(vars_ + [c], 2, self.cfg.max_depth - 1, "ret" if has_ret else "noret", n=1, in_loop=False)
+                if self.chance(50):
+                    L += [f"        if {c} >= {lim}:", f"            {ret()}"]
+                else:
+                    L += [f"        if {c} < {lim}:", f"            {self.write(vars_ + [c])}", "        else:", f"            {ret()}"]
+            else:
+                L.append(f"    for {c}x in range(5):")
+                L.append(f"        {self.write(vars_)}")
+                L += [f"        if {c}x >= {lim}:", f"            {ret()}"]
+                if has_ret:
+                    L.append(f"    return {self.expr(vars_)}")
+        elif has_ret and self.chance(22):
+            # every return closes a branch of an if/elif/else that is the function's last statement
+            self.features.add("ends-in-if-else-returns")
+            L.append(f"    if {self.test(vars_)}:")
+            if self.chance(50):
+                L.append(f"        {self.write(vars_)}")
+            L.append(f"        return {self.expr(vars_)}")
+            if self.chance(40):
+                L.append(f"    elif {self.test(vars_)}:")
+                L.append(f"        return {self.expr(vars_)}")
+            L.append("    else:")
+            if self.chance(50) and self.funcs:
+                L.append(f"        {self.call_stmt(vars_)}")
+            L.append(f"        return {self.expr(vars_)}")
+        elif has_ret:
             L.append(f"    return {self.expr(vars_)}")
         elif self.cfg.tail_call_bias and self.funcs and self.chance(self.cfg.tail_call_bias):
             cands = [f for f in self.funcs if not f["has_ret"]] or self.funcs
